@@ -209,6 +209,54 @@ def check(ctx, lib):
         empty = (zero == tv) != neg
         return which, "empty" if empty else "nonempty"
 
+    def helper_facts(g):
+        """facts a guard edge on a crate predicate (block, parents) -> bool establishes: the facts common to all of the helper's paths that return the edge's truth value"""
+        o = local.peel(g["origin"])
+        neg = False
+        while o[0] == "unop" and o[1] == "Not":
+            neg, o = not neg, local.peel(o[2])
+        tv = guards.edge_truth(g)
+        hb = lib.body(o[1]) if o[0] == "call" else None
+        if tv is None or hb is None or hb.sig_output != "bool" or hb.derived:
+            return {}
+        want = (tv != neg)
+        try:
+            from sa import ccp
+            leaves = ccp.Machine([lib]).run(hb, [ccp.Sym("p%d" % i) for i in range(1, hb.arg_count + 1)])
+        except Exception:
+            return {}
+        common = None
+        for l in leaves:
+            if l.kind != "return":
+                return {}
+            atoms = list(l.label)
+            v = l.value
+            if isinstance(v, ccp.Const) and isinstance(v.v, bool):
+                if v.v != want:
+                    continue
+            else:
+                atoms.append((ccp.show(v), "True" if want else "False"))
+            fs = set()
+            for a, val in atoms:
+                if val not in ("True", "False"):
+                    continue
+                m_ = re.match(r"^(Eq|Ne)\((.*), 0\)$", a)
+                if m_:
+                    body_, zero_ = m_.group(2), m_.group(1) == "Eq"
+                elif re.match(r"^[\w:<>, ]*::(?:is_none|is_empty)\(", a):
+                    body_, zero_ = a, True
+                elif re.match(r"^[\w:<>, ]*::is_some\(", a):
+                    body_, zero_ = a, False
+                else:
+                    continue
+                which = "inter" if "::intersection(" in body_ else ("diff" if "::difference(" in body_ else None)
+                if which is None or ("::intersection(" in body_ and "::difference(" in body_):
+                    continue
+                empty = (zero_ == (val == "True"))
+                fs.add((which, "empty" if empty else "nonempty"))
+            common = fs if common is None else (common & fs)
+        return {w: {st} for w, st in (common or set())}
+
     for bi, t, v, rvec in recs:
         facts = {}
         for g in guards.guards(M, bi):
@@ -217,6 +265,9 @@ def check(ctx, lib):
             ht = half_test(g)
             if ht:
                 facts.setdefault(ht[0], set()).add(ht[1])
+            else:
+                for w_, st_ in helper_facts(g).items():
+                    facts.setdefault(w_, set()).update(st_)
         wrong = [h for h, st in facts.items() if "empty" in st]
         if wrong:
             ctx.violation("MIN-7", (M.path, "split condition"), "a block is recorded for splitting on a path where its %s is known to be *empty* (the skip test is inverted): blocks that need "
